@@ -25,7 +25,7 @@ ASSUMPTIONS = [
 ]
 REQUIRED = ["removed_0", "removed_1", "removed_2plus", "duplicate_removed", "grouped_removed",
             "union_only_cover_kept", "standard_removed", "switched_removed",
-            "item_switched_removed"]
+            "item_switched_removed", "members_changed_ok"]
 PREFIX = "= "
 _KEEP = __import__("collections").deque(maxlen=256)  # unmodified, already audited ACLs (per process)
 
@@ -117,6 +117,7 @@ def units(tier, seed):
         for b in SHADOW_ONLY:
             out.append(dict(kind="long", first=[a, b]))
     out.append(dict(kind="twins"))
+    out.append(dict(kind="members_changed"))
     for a in DUP5:
         for b in DUP5:
             out.append(dict(kind="dup5", first=[a, b]))
@@ -182,6 +183,9 @@ def run_unit(unit, ctx):
             for rest in product(SWITCHED, repeat=ln - 1):
                 check_acl("ios", (unit["first"],) + rest, SW_VARIANTS[unit["variant"]], ctx)
         return
+    if unit["kind"] == "members_changed":
+        _members_changed(ctx)
+        return
     if unit["kind"] == "dup5":
         # five entries over four lines: every list has a repeated line, also on both sides of
         # another covering pair
@@ -224,6 +228,65 @@ def _norm(text):
 
 def replay(case, ctx):
     check_acl(case["platform"], tuple(case["idx"]), case["variant"], ctx)
+
+
+def _members_changed(ctx):
+    """One Acl object: shading() is asked, then the members of a referenced address group are
+    changed IN PLACE (the ACL text stays the same), then delete_shadow() - the removal must follow
+    the members the group has NOW."""
+    from cisco_acl import Acl
+
+    from vf.refsem.reader import Reader
+
+    for plat in ("ios", "nxos"):
+        ref = "object-group G" if plat == "ios" else "addrgroup G"
+        head = PR.header(plat)
+        wide, narrow = ("10.1.0.0 0.0.255.255", "host 10.1.2.3") if plat == "ios" else ("10.1.0.0/16", "host 10.1.2.3")
+        other = "host 10.9.9.9"
+        for side in ("src", "dst"):
+            grp_line = f"permit ip {ref} any" if side == "src" else f"permit ip any {ref}"
+            low = f"permit ip {narrow} any" if side == "src" else f"permit ip any {narrow}"
+            for first, then in (([wide], [other]), ([other], [wide]), ([wide, other], [other]),
+                                ([other], [other, wide]), ([wide], [narrow]), ([narrow], [other])):
+                for edit in ("assign", "in_place", "member.line"):
+                    for query in ("shading", "shadow_of", "none"):
+                        for skip in (None, ["nc_wildcard"]):
+                            ctx.ev()
+                            case = dict(kind="members_changed", platform=plat, side=side, first=first, then=then,
+                                        edit=edit, query=query, skip=skip)
+                            try:
+                                acl = Acl(f"{head}\n {grp_line}\n remark x\n {low}\n deny ip any any", platform=plat)
+                                adr = getattr(acl.items[0], side + "addr")
+                                adr.items = list(first)
+                                if query != "none":
+                                    getattr(acl, query)(skip)
+                                if edit == "assign":
+                                    adr.items = list(then)
+                                elif edit == "in_place":
+                                    fresh = type(adr)(ref, platform=plat, items=list(then)).items
+                                    del adr.items[:]
+                                    adr.items.extend(fresh)
+                                else:
+                                    if len(then) != len(adr.items):
+                                        continue
+                                    for m, t in zip(adr.items, then):
+                                        m.line = t
+                                report = acl.delete_shadow(skip)
+                                lines = PR.flat_lines(acl)
+                            except Exception as ex:  # noqa
+                                ctx.viol("Acl.delete_shadow:members_changed:exception", case, repr(ex), "report")
+                                continue
+                            rd = Reader(plat)
+                            covers = any(rd._addr(t.split())[0][0] == rd._addr(wide.split())[0][0] or t == narrow
+                                         for t in then)
+                            removed = low not in [PR.strip_seq(x) for x in lines]
+                            if removed != covers or bool(report) != covers:
+                                ctx.viol("Acl.delete_shadow:follows_members_of_an_earlier_query", case,
+                                         dict(removed=removed, report=report),
+                                         dict(removed=covers, members_now=then))
+                            else:
+                                ctx.out("members_changed_ok")
+    ctx.sample("members_changed", dict(edits=["assign", "in_place", "member.line"]))
 
 
 def PR_flat_objects(acl):
